@@ -28,6 +28,8 @@ REQUIRED_COUNTERS = {"blocked_threads_checked": {"quick": 300, "thorough": 5000}
                      "schedules": {"quick": 1500, "thorough": 20000},
                      "schedules_target_moved": {"quick": 1000, "thorough": 15000},
                      "retries_observed": {"quick": 20, "thorough": 200},
+                     "inspect_frame_snapshots_checked": {"quick": 20000, "thorough": 400000},
+                     "inspect_frame_snapshots_of_executing_frames": {"quick": 2000, "thorough": 40000},
                      "rejections_observed": {"quick": 2, "thorough": 20},
                      "stress_extractions": {"quick": 2000, "thorough": 50000},
                      "stress_distinct_positions": {"quick": 20, "thorough": 40}}
@@ -42,7 +44,7 @@ def plan(tier, seed):
             shards.append({"interp": interp, "leg": "blocked", "seed": seed * 100 + s,
                            "n": 120 if tier == "quick" else 3000, "budget_s": 40 if tier == "quick" else 1200})
     for interp in ("3.12", "3.11"):
-        for script in (0, 1, 2):
+        for script in (0, 1, 2, 3):
             for part in range(2 if tier == "quick" else 4):
                 shards.append({"interp": interp, "leg": "schedules", "script": script, "part": part,
                                "parts": 2 if tier == "quick" else 4, "seed": seed,
@@ -221,9 +223,15 @@ class Target(object):
 
     def __init__(self, script):
         import threading
+        import _thread
         self.log = []
-        self.reached = threading.Semaphore(0)
-        self.go = threading.Semaphore(0)
+        # raw locks used as binary semaphores (strictly alternating hand-off), so that a script can
+        # park with a C-level call made directly from its own frame (the frame is then *executing*:
+        # no saved stack pointer)
+        self.reached = _thread.allocate_lock()
+        self.reached.acquire()
+        self.go = _thread.allocate_lock()
+        self.go.acquire()
         self.pos = 0
         self.done = False
         self.truth = {}     # gate position -> {id(frame): [(mgr, exiting)]}
@@ -274,6 +282,11 @@ class Target(object):
         self.truth[self.pos] = self.fold()
         self.reached.release()
         self.go.acquire()
+
+    def note(self):
+        """first half of an inline gate: `t.note(); R(); G()` with R/G the raw lock methods"""
+        self.pos += 1
+        self.truth[self.pos] = self.fold()
 
     def _body(self):
         try:
@@ -386,7 +399,100 @@ def script2(t):
     t_main()
 
 
-SCRIPTS = [script0, script1, script2]
+def script3(t):
+    """parks with C-level lock calls made directly from the script frame, moving between regions of
+    different handler depth (inside nested withs / a try / outside everything)"""
+    M = t.M
+    note = t.note
+    R = t.reached.release
+    G = t.go.acquire
+
+    def t_main():
+        note(); R(); G()
+        with M(50) as a:  # noqa
+            note(); R(); G()
+            with M(51), M(52):
+                note(); R(); G()
+                for q in (1, 2):
+                    note(); R(); G()
+            note(); R(); G()
+        note(); R(); G()
+        try:
+            note(); R(); G()
+            t_leaf()
+        finally:
+            note(); R(); G()
+        note(); R(); G()
+
+    def t_leaf():
+        note(); R(); G()
+        with M(53):
+            note(); R(); G()
+        note(); R(); G()
+
+    t.codes.add(t_main.__code__)
+    t.codes.add(t_leaf.__code__)
+    t_main()
+
+
+SCRIPTS = [script0, script1, script2, script3]
+
+
+
+def install_snapshot_invariant(problems):
+    """Oracle at the boundary of lowlevel.inspect_frame (3.11+), for targets that only move inside
+    hook callbacks: when inspect_frame returns, the target is parked again and the frame's own state
+    (f_lasti, saved stack pointer) is the state the accepted snapshot claims to describe.  The number
+    of value-stack slots is re-derived independently from that state: the saved stack pointer if the
+    frame has one, otherwise (frame executing, stacktop == -1) the depth of the exception-table entry
+    covering f_lasti (stdlib dis parser).  A different length means the extent of one position was
+    combined with the f_lasti of another."""
+    import ctypes
+    import dis
+    from stackscope import _lowlevel as LL
+    LL.inspect_frame(sys._getframe(0))   # resolve the lazy implementation import
+    orig = LL.inspect_frame
+    counter = {"checked": 0, "executing": 0}
+    if sys.version_info < (3, 11):
+        return counter
+    from stackscope import _lowlevel_cpython_311 as impl
+
+    def expected_len(frame):
+        co = frame.f_code
+        raw = impl.FrameObject.from_address(id(frame))
+        iframe = raw.f_frame.contents
+        if iframe.owner == impl.FRAME_OWNED_BY_FRAME_OBJECT:
+            return None
+        nlocalsplus = len(set(co.co_varnames + co.co_cellvars)) + len(co.co_freevars)
+        st = iframe.stacktop
+        if st != -1:
+            return st - nlocalsplus, False
+        lasti = frame.f_lasti
+        for e in dis._parse_exception_table(co):
+            if e.start <= lasti < e.end:
+                return e.depth, True
+        return 0, True
+
+    def checked(frame):
+        d = orig(frame)
+        try:
+            exp = expected_len(frame)
+        except Exception:
+            exp = None
+        counter["checked"] += 1
+        if exp is not None:
+            want, executing = exp
+            if executing:
+                counter["executing"] += 1
+            if len(d.stack) != want and len(problems) < 5:
+                problems.append("inspect_frame(%s): snapshot has %d value-stack slots, the frame's state when it "
+                                "returned (f_lasti=%d, %s) has %d" % (
+                                    frame.f_code.co_name, len(d.stack), frame.f_lasti,
+                                    "executing" if executing else "saved stack pointer", want))
+        return d
+
+    LL.inspect_frame = checked
+    return counter
 
 
 def schedules_leg(spec, res):
@@ -405,6 +511,8 @@ def schedules_leg(spec, res):
     script = SCRIPTS[spec["script"]]
     boot = {getattr(threading.Thread, n).__code__ for n in ("run", "_bootstrap", "_bootstrap_inner")
             if hasattr(threading.Thread, n)}
+    snapshot_problems = []
+    snap_counter = install_snapshot_invariant(snapshot_problems)
 
     # number of gates
     t = Target(script)
@@ -489,7 +597,8 @@ def schedules_leg(spec, res):
         iw = ctxmon.insp_warnings(w)
         if iw:
             res.count("rejections_observed")
-        problems = []
+        problems = list(snapshot_problems)
+        del snapshot_problems[:]
         if raised is not None:
             problems.append("extract raised %r" % (raised,))
         else:
@@ -551,6 +660,8 @@ def schedules_leg(spec, res):
             res.count("budget_cut")
             break
         run_case(*c)
+    res.count("inspect_frame_snapshots_checked", snap_counter["checked"])
+    res.count("inspect_frame_snapshots_of_executing_frames", snap_counter["executing"])
     res.sample({"leg": "schedules", "script": spec["script"], "gates": ngates, "cases": len(cases)})
     return res
 
